@@ -307,6 +307,36 @@ def h2_blocked_eof_case(seed):
     return desc, fails
 
 
+def stalled_client_error_case(seed):
+    """The client stops reading in the middle of the response (the server's write parks) and then sends what is not a chunk
+    of its request body: the server decides to close.  The transport is closed and the handler finishes although a write
+    was pending."""
+    from . import c16
+
+    rng = random.Random(seed)
+    T = rng.choice([1.0, 5.0])
+    garbage = rng.choice([b"zz\r\n", b"-1\r\n"])
+    steps = [("send", {"type": "http.response.start", "status": 200, "headers": []}),
+             ("send", {"type": "http.response.body", "body": b"first", "more_body": True}), ("sleep", 1.0),
+             ("send", {"type": "http.response.body", "body": b"x" * 5000, "more_body": True}), ("sleep", 3.0),
+             ("send", {"type": "http.response.body", "body": b"last", "more_body": False})]
+    script = [("send", b"POST /u HTTP/1.1\r\nHost: x\r\nTransfer-Encoding: chunked\r\n\r\n3\r\nabc\r\n"), ("sleep", 0.5), ("stall",),
+              ("sleep", 1.0), ("send", garbage), ("sleep", 6.0)]
+    fails = []
+    desc = {"seed": seed, "carrier": "h1", "note": "stalled-client-then-error", "T": T}
+    for backend, run in (("asyncio", W.run_asyncio), ("trio", W.run_trio)):
+        res = run(c16.scripted([steps]), make_cfg(T), script, tail=60.0)
+        ca = closed_at(res)
+        if ca is None:
+            fails.append({"signature": "transport-left-open-after-server-close", "backend": backend, "desc": desc, "error": res["handler_error"]})
+        elif res["handler_done"] is None or res["leftovers"]:
+            fails.append({"signature": "handler-not-finished", "backend": backend, "leftovers": res["leftovers"], "error": res["handler_error"],
+                          "desc": desc})
+        elif res["handler_error"]:
+            fails.append({"signature": "handler-error", "backend": backend, "error": res["handler_error"], "desc": desc})
+    return desc, fails
+
+
 def h2_slow_client_case(seed):
     """The client lets its 65535-octet window fill, waits longer than keep_alive_timeout and only then grants credit: the
     stream is open all along, so the timer must not fire, and the response is delivered in full however slowly it is consumed."""
@@ -439,7 +469,7 @@ def timer_case(res, T):
 
 def run(ctx):
     fns = [(h1_case, ctx.scale(360, 2000, 600)), (loss_case, ctx.scale(240, 1200, 400)), (ws_case, ctx.scale(48, 300, 100)),
-           (h2_case, ctx.scale(48, 300, 100)), (h2_blocked_eof_case, ctx.scale(16, 100, 30)), (h2_slow_client_case, ctx.scale(8, 60, 20)), (h1_close_pipelined_case, ctx.scale(16, 100, 30)), (terminate_case, ctx.scale(12, 100, 40))]
+           (h2_case, ctx.scale(48, 300, 100)), (h2_blocked_eof_case, ctx.scale(16, 100, 30)), (h2_slow_client_case, ctx.scale(8, 60, 20)), (stalled_client_error_case, ctx.scale(6, 40, 12)), (h1_close_pipelined_case, ctx.scale(16, 100, 30)), (terminate_case, ctx.scale(12, 100, 40))]
     oracle_failures, descs = [], []
     for fn, n in fns:
         for i in range(n):
